@@ -45,6 +45,15 @@ func dirArg(d *gast.Directive, name string) (string, bool) {
 
 // Compose computes the metadata and field configurations of one subgraph.
 func Compose(sdl string) (*plan.DataSourceMetadata, plan.FieldConfigurations, error) {
+	return ComposeWith(sdl, nil)
+}
+
+// ComposeWith: externalKeyFields ("Type.field") names the key members that are
+// @external on a plain (non-extension) type of a Federation 2 subgraph: unlike
+// the @external key of an `extend type` stub (which the composed router
+// configurations list under FieldNames) they go to ExternalFieldNames - the
+// "explicit conditional" key of plan/key_fields_visitor.go.
+func ComposeWith(sdl string, externalKeyFields []string) (*plan.DataSourceMetadata, plan.FieldConfigurations, error) {
 	schema, err := ParseSubgraphSDL(sdl)
 	if err != nil {
 		return nil, nil, fmt.Errorf("subgraph SDL: %w", err)
@@ -92,7 +101,7 @@ func Compose(sdl string) (*plan.DataSourceMetadata, plan.FieldConfigurations, er
 				continue
 			}
 			ext := f.Directives.ForName("external") != nil
-			if ext && !keyFields[f.Name] {
+			if ext && (!keyFields[f.Name] || has(externalKeyFields, n+"."+f.Name)) {
 				tf.ExternalFieldNames = append(tf.ExternalFieldNames, f.Name)
 			} else {
 				tf.FieldNames = append(tf.FieldNames, f.Name)
@@ -122,4 +131,57 @@ func Compose(sdl string) (*plan.DataSourceMetadata, plan.FieldConfigurations, er
 		}
 	}
 	return md, fcs, nil
+}
+
+// AddImplicitKeys completes the per-subgraph metadata the way the composition
+// does (the repository's own multi-hop tests configure their data sources like
+// this, e.g. graphql_datasource/multihop_compound_key_test.go: the "collection"
+// subgraph declares @key "id pid" only and is configured with the additional
+// key {Product, "id", DisableEntityResolver: true}): a key that ANOTHER
+// subgraph declares for an entity, that this subgraph does not declare itself,
+// and all of whose members this subgraph resolves (FieldNames, not external)
+// is an implicit key - usable as the source of a jump, never as a target.
+// Only flat keys (no nested selection) are considered.
+func AddImplicitKeys(mds []*plan.DataSourceMetadata) {
+	type decl struct{ typeName, sel string }
+	var declared []decl
+	seen := map[decl]bool{}
+	for _, md := range mds {
+		for _, k := range md.FederationMetaData.Keys {
+			d := decl{k.TypeName, k.SelectionSet}
+			if !seen[d] && !strings.Contains(k.SelectionSet, "{") {
+				seen[d] = true
+				declared = append(declared, d)
+			}
+		}
+	}
+	for _, md := range mds {
+		own := map[decl]bool{}
+		for _, k := range md.FederationMetaData.Keys {
+			own[decl{k.TypeName, k.SelectionSet}] = true
+		}
+		for _, d := range declared {
+			if own[d] {
+				continue
+			}
+			var tf *plan.TypeField
+			for i := range md.RootNodes {
+				if md.RootNodes[i].TypeName == d.typeName {
+					tf = &md.RootNodes[i]
+				}
+			}
+			if tf == nil {
+				continue
+			}
+			all := true
+			for _, fn := range selectionFieldNames(d.sel) {
+				if !has(tf.FieldNames, fn) {
+					all = false
+				}
+			}
+			if all {
+				md.FederationMetaData.Keys = append(md.FederationMetaData.Keys, plan.FederationFieldConfiguration{TypeName: d.typeName, SelectionSet: d.sel, DisableEntityResolver: true})
+			}
+		}
+	}
 }
